@@ -243,6 +243,54 @@ Proof.
   intros Hna Hnb Ha Hb. rewrite gen_l_eq, <- (leq_iff n a b Hna Hnb Ha Hb). split; [intros [= H]; exact H|intros ->; reflexivity].
 Qed.
 
+(* ---------- quadratic symmetries (C16) ---------- *)
+From PauLie Require Import Quadratic.
+Definition quad_lin (a : lin) (L : pstr) : lin := map (fun t => (gmul (fst t) (phase L (snd t)), snd t ++ smul L (snd t))) a.
+Theorem gen_l_quadratic_lin n a L : all_n n a -> length L = n -> py_L_quadratic a L = FRet (quad_lin a L).
+Proof.
+  intros Ha HL. unfold py_L_quadratic. cbv zeta.
+  match goal with |- context [fold_left ?f a _] => set (F := f) end.
+  assert (Lp : forall l T c0 s0 ph0 pl0 ts0 nc0, all_n n l -> exists c1 s1 ph1 pl1 ts1 nc1,
+     fold_left F l (Next (T, c0, s0, ph0, pl0, ts0, nc0)) = Next (T ++ quad_lin l L, c1, s1, ph1, pl1, ts1, nc1)).
+  { induction l as [|[c p] l IH]; intros T c0 s0 ph0 pl0 ts0 nc0 Hl; [exists c0, s0, ph0, pl0, ts0, nc0; cbn; rewrite app_nil_r; reflexivity|].
+    cbn [fold_left]. assert (Hp : length p = n) by (apply (Hl (c, p)); left; reflexivity).
+    assert (St : F (Next (T, c0, s0, ph0, pl0, ts0, nc0)) (c, p) =
+                 Next (T ++ [(gmul c (phase L p), p ++ smul L p)], c, p, phase L p, smul L p, p ++ smul L p, gmul c (phase L p))).
+    { subst F. cbv beta iota. cbn [seqo uncont]. rewrite sign_code_ok, multiply_code_ok by congruence. reflexivity. }
+    rewrite St. destruct (IH (T ++ [(gmul c (phase L p), p ++ smul L p)]) c p (phase L p) (smul L p) (p ++ smul L p) (gmul c (phase L p))) as [c1 [s1 [ph1 [pl1 [ts1 [nc1 E]]]]]].
+    { intros t Ht. apply Hl. right. exact Ht. }
+    exists c1, s1, ph1, pl1, ts1, nc1. eapply eq_trans; [exact E|]. unfold quad_lin. cbn [map fst snd]. rewrite <- app_assoc. reflexivity. }
+  destruct (Lp a [] (0, 0) [] (0, 0) [] [] (0, 0) Ha) as [c1 [s1 [ph1 [pl1 [ts1 [nc1 E]]]]]].
+  unfold pstr in *. rewrite E. reflexivity.
+Qed.
+(* on a component (coefficient 1 on every member) this is the model's Q_{C,L} *)
+Lemma quad_lin_component C L : quad_lin (map (fun s => (g1, s)) C) L = quadratic C L.
+Proof.
+  unfold quad_lin, quadratic. rewrite map_map. apply map_ext. intros s. cbn [fst snd]. f_equal. unfold gmul, g1. cbn [fst snd]. destruct (phase L s) as [x y]. cbn [fst snd]. f_equal; lia.
+Qed.
+Theorem gen_l_quadratic n C L : (forall s, In s C -> length s = n) -> length L = n ->
+  py_L_quadratic (map (fun s => (g1, s)) C) L = FRet (quadratic C L).
+Proof.
+  intros HC HL. rewrite (gen_l_quadratic_lin n); [rewrite quad_lin_component; reflexivity| |exact HL].
+  intros t Ht. apply in_map_iff in Ht. destruct Ht as [s [<- Hs]]. apply HC. exact Hs.
+Qed.
+(* get_symmetries_for_component: one Q_{C,L} per linear symmetry, in order *)
+Theorem gen_l_symmetries n C Ls : (forall s, In s C -> length s = n) -> (forall L, In L Ls -> length L = n) ->
+  py_L_C_get_symmetries_for_component C Ls = FRet (map (quadratic C) Ls).
+Proof.
+  intros HC HLs. unfold py_L_C_get_symmetries_for_component. cbv zeta.
+  match goal with |- context [fold_left ?f Ls _] => set (F := f) end.
+  assert (Lp : forall l T L0 q0, (forall L, In L l -> length L = n) -> exists L1 q1,
+     fold_left F l (Next (map (fun s => (g1, s)) C, T, L0, q0)) = Next (map (fun s => (g1, s)) C, T ++ map (quadratic C) l, L1, q1)).
+  { induction l as [|L l IH]; intros T L0 q0 Hl; [exists L0, q0; cbn; rewrite app_nil_r; reflexivity|].
+    cbn [fold_left map].
+    assert (St : F (Next (map (fun s => (g1, s)) C, T, L0, q0)) L = Next (map (fun s => (g1, s)) C, T ++ [quadratic C L], L, quadratic C L)).
+    { subst F. cbv beta iota. cbn [seqo uncont]. rewrite (gen_l_quadratic n C L HC (Hl L (or_introl eq_refl))). reflexivity. }
+    rewrite St. destruct (IH (T ++ [quadratic C L]) L (quadratic C L)) as [L1 [q1 E]]. { intros L' HL'. apply Hl. right. exact HL'. }
+    exists L1, q1. eapply eq_trans; [exact E|]. rewrite <- app_assoc. reflexivity. }
+  destruct (Lp Ls [] [] [] HLs) as [L1 [q1 E]]. unfold pstr in *. rewrite E. reflexivity.
+Qed.
+
 (* ---------- non-vacuity ---------- *)
 Example gen_lin_runs :
   py_L_matmul [(g1, [PX]); (g1, [PZ])] [(g1, [PX]); (g1, [PZ])] = FRet [((2, 0), [PI])] /\
@@ -254,7 +302,8 @@ Example gen_lin_runs :
   py_L_eq [(g1, [PX])] [(gI, [PX])] = FRet false /\
   py_L_mul [] g1 = FNonInt /\
   py_L_matmul [(g1, [PX])] [(g1, [PX; PI])] = FRaised verr /\
-  py_L_h [(gI, [PY])] = FRet [((0, -1), [PY])].
+  py_L_h [(gI, [PY])] = FRet [((0, -1), [PY])] /\
+  py_L_C_get_symmetries_for_component [[PX]; [PY]] [[PI]; [PZ]] = FRet [[(g1, [PX; PX]); (g1, [PY; PY])]; [(gI, [PX; PY]); ((0, -1), [PY; PX])]].
 Proof. vm_compute. repeat split. Qed.
 
 Print Assumptions gen_l_simplify.
@@ -274,4 +323,7 @@ Print Assumptions gen_l_h_matrix.
 Print Assumptions gen_l_trace_matrix.
 Print Assumptions gen_l_is_zero_iff.
 Print Assumptions gen_l_eq_iff.
+Print Assumptions gen_l_quadratic_lin.
+Print Assumptions gen_l_quadratic.
+Print Assumptions gen_l_symmetries.
 Print Assumptions gen_lin_runs.
